@@ -152,11 +152,24 @@ def twin_noop(root: str) -> None:
         open(p, "w", encoding="utf-8").write(ast.unparse(tree) + "\n")
 
 
+def _lazy(name):
+    def run(root):
+        from . import twins
+        getattr(twins, name)(root)
+    return run
+
+
 TWINS = [("reformat (ast.unparse of every module: quotes, layout, comments dropped, all line numbers move)", twin_reformat),
          ("shift (11 comment lines inserted at the top of every module)", twin_shift),
          ("rename (locals of analysed functions renamed)", twin_rename),
          ("rename-all (every local of every function renamed)", twin_rename_all),
-         ("no-op statements (a `pass` after every simple statement of every function)", twin_noop)]
+         ("no-op statements (a `pass` after every simple statement of every function)", twin_noop),
+         ("reordered definitions (methods of every class in reverse order)", _lazy("reorder_defs")),
+         ("logging (a stdlib logging call after every simple statement of every function)", _lazy("logging_twin")),
+         ("annotated locals (first assignment of every local becomes `x: object = value`)", _lazy("annotate")),
+         ("explaining variables (`if <expr>:` becomes `c = <expr>; if c:`)", _lazy("explain_var")),
+         ("else after return flattened (`if c: return .. else: B` becomes `if c: return ..; B`, cascading through elif chains)", _lazy("else_flatten")),
+         ("else after return introduced (statements after a terminating `if` move into its else)", _lazy("else_unflatten"))]
 
 
 def _run_check(prop: str, root: str) -> Tuple[int, str]:
